@@ -53,6 +53,17 @@ class RecoveryBinding(Binding):
     def __init__(self, ctx, cls):
         self.ctx, self.cls = ctx, cls
         self.vars = {"state": STATES, "conn": ("Disconnected", "Connected"), "loc": (None, "Disconnected", "Connected")}
+        # the local of _update_connection_status that carries the status to the tag (discovered by role, not by name)
+        self.status_local = None
+        ucs = cls.find_method("_update_connection_status")
+        if ucs is not None:
+            for c in ast.walk(ucs.node):
+                if isinstance(c, ast.Call) and call_attr(c) == "set_value" and "connection_status_tag" in norm(c.func) and c.args:
+                    v = c.args[0]
+                    if isinstance(v, ast.Call) and call_attr(v) == "str" and v.args:
+                        v = v.args[0]
+                    if isinstance(v, ast.Name):
+                        self.status_local = v.id
 
     def _is_self(self, e, f):
         return isinstance(e, ast.Name) and f.node.args.args and e.id == f.node.args.args[0].arg
@@ -60,7 +71,7 @@ class RecoveryBinding(Binding):
     def read(self, expr, f):
         if isinstance(expr, ast.Attribute) and expr.attr == "state" and self._is_self(expr.value, f):
             return "state"
-        if isinstance(expr, ast.Name) and expr.id == "value" and f.name == "_update_connection_status":
+        if isinstance(expr, ast.Name) and expr.id == self.status_local and f.name == "_update_connection_status":
             return "loc"
         return None
 
@@ -81,7 +92,7 @@ class RecoveryBinding(Binding):
             for t in a.targets:
                 if isinstance(t, ast.Attribute) and t.attr == "state" and self._is_self(t.value, f):
                     out.append(("state", a.value))
-                if isinstance(t, ast.Name) and t.id == "value" and f.name == "_update_connection_status":
+                if isinstance(t, ast.Name) and t.id == self.status_local and f.name == "_update_connection_status":
                     out.append(("loc", a.value))
         if n.kind == "stmt":
             for c in n.calls():
